@@ -2,6 +2,8 @@
 //! verdicts are in the shard file, decided by the driver).
 use crate::{Ctx, Recorder};
 
+pub mod c07;
+pub mod c08;
 pub mod c22;
 pub mod c25;
 pub mod c27;
@@ -11,6 +13,8 @@ pub mod c29_core;
 pub fn dispatch(ctx: &Ctx) -> i32 {
     let mut rec = Recorder::new();
     let r = match ctx.id.as_str() {
+        "C07" => c07::run(ctx, &mut rec),
+        "C08" => c08::run(ctx, &mut rec),
         "C22" => c22::run(ctx, &mut rec),
         "C25" => c25::run(ctx, &mut rec),
         "C27" => c27::run(ctx, &mut rec),
